@@ -515,3 +515,22 @@ Proof.
   - exists []. reflexivity.
   - intros Hl. destruct (Hids Hl) as (A & B & C). constructor; auto.
 Qed.
+
+Lemma sp3_compile_main old ids0 f : sp3 old ids0 (compile_main f) (fun _ => True).
+Proof.
+  unfold compile_main.
+  eapply sp3_bind; [apply sp3_frame, frame3_set_index_m | intros _ _].
+  eapply sp3_bind; [apply sp3_frame, frame3_set_fh_m | intros _ _].
+  eapply sp3_bind; [apply sp3_frame, frame3_scope_begin | intros _ _].
+  eapply sp3_bind; [apply sp3_process_function | intros _ _].
+  eapply sp3_bind; [apply sp3_frame, frame3_set_index_m | intros _ _].
+  eapply sp3_bind; [apply sp3_scope_end | intros _ _].
+  apply sp3_process_leaf.
+Qed.
+
+Lemma G_init d : G [] [] (init_state d).
+Proof.
+  constructor; cbn; auto.
+  - exists []. reflexivity.
+  - intros _. constructor; cbn; auto; intros; discriminate.
+Qed.
